@@ -273,7 +273,8 @@ let s_router g obs =
   let spec = String.concat ";" (List.init nch (fun c -> show (expected ops N0 None (n_of_int c)) (expected_closed ops N0 false false (n_of_int c)))) in
   (model, if obs = spec then "ok" else "bad:subscriber-did-not-get-exactly-its-events-in-order")
 let s_routerconc g obs =
-  let what = if (try g "k" = "publishers" with _ -> false) then "bad:concurrent-publishers-" else "bad:concurrent-unsubscribe-" in
+  let k = (try g "k" with _ -> "") in
+  let what = if k = "publishers" then "bad:concurrent-publishers-" else if k = "stalled" then "bad:stalled-subscriber-" else "bad:concurrent-unsubscribe-" in
   ("ok", if obs = "ok" then "ok" else what ^ (List.hd (String.split_on_char ':' obs)))
 
 (* ---- C19: EUI allocator ---- *)
@@ -363,6 +364,7 @@ let register_all register =
   register "histC09" (s_hist Judge.judge_c09);
   register "histC10" (s_hist Judge.judge_c10);
   register "histC11" (s_hist Judge.judge_c01);
+  register "histC17" (s_hist Judge.judge_c17);
   register "phy" s_phy;
   register "phyenc" s_phyenc;
   register "maccmd" s_maccmd;
